@@ -73,6 +73,17 @@ type State struct {
 	// Lit: the variable holds this struct literal (assigned from it, from a package variable that is initialised
 	// by it and never written, or handed to a parameter of a callee analysed in context)
 	Lit map[types.Object]*ast.CompositeLit
+	// Impl: implications between call-free tests left behind by a disjunctive refinement (`!(a && b)`: a => !b,
+	// b => !a), kept only until the next statement — they serve the conditions evaluated in sequence with nothing
+	// in between (the cases of a tagless switch, an else-if chain)
+	Impl []implFact
+}
+
+type implFact struct {
+	ante    ast.Expr
+	anteVal bool
+	cons    ast.Expr
+	consVal bool
 }
 
 type feas struct {
@@ -160,6 +171,7 @@ func (s *State) copy() *State {
 	for k, v := range s.Lit {
 		n.Lit[k] = v
 	}
+	n.Impl = append([]implFact(nil), s.Impl...)
 	return n
 }
 
@@ -230,6 +242,21 @@ func (s *State) join(o *State) bool {
 			s.Feas[k] = feas{v.mask | ov.mask, v.n, v.exits, v.sum}
 			ch = true
 		}
+	}
+	if len(s.Impl) > 0 {
+		var keep []implFact
+		for _, a := range s.Impl {
+			for _, b := range o.Impl {
+				if a == b {
+					keep = append(keep, a)
+					break
+				}
+			}
+		}
+		if len(keep) != len(s.Impl) {
+			ch = true
+		}
+		s.Impl = keep
 	}
 	for k := range o.Unrep {
 		if !s.Unrep[k] {
@@ -1311,6 +1338,20 @@ func (r *runner) originFail(st *State, o *Origin) {
 
 func (r *runner) refine(cond ast.Expr, branch bool, st *State) {
 	cond = ast.Unparen(cond)
+	if len(st.Impl) > 0 && !hasCall(cond) {
+		txt := types.ExprString(cond)
+		impl := st.Impl
+		st.Impl = nil
+		var rest []implFact
+		for _, f := range impl {
+			if f.anteVal == branch && types.ExprString(f.ante) == txt {
+				r.refine(f.cons, f.consVal, st)
+			} else {
+				rest = append(rest, f)
+			}
+		}
+		st.Impl = rest
+	}
 	if o, empty, ok := r.lenTest(cond, branch); ok {
 		// the body of a loop over the collection has run: it is not empty; the loop is behind us and its body never
 		// ran: it is empty
@@ -1474,6 +1515,10 @@ func (r *runner) refineEither(a, b ast.Expr, v bool, st *State) {
 	default:
 		s1.join(s2)
 		*st = *s1
+		// !(a && b) (v false): a => !b, b => !a;  a || b (v true): !a => b, !b => a
+		if !hasCall(a) && !hasCall(b) && len(st.Impl) < 8 {
+			st.Impl = append(st.Impl, implFact{a, !v, b, v}, implFact{b, !v, a, v})
+		}
 	}
 }
 
@@ -1674,6 +1719,9 @@ func (r *runner) setNil(e ast.Expr, nilv bool, st *State) {
 
 // node applies one CFG node.
 func (r *runner) node(b *cfg.Block, n ast.Node, st *State) {
+	if _, isStmt := n.(ast.Stmt); isStmt {
+		st.Impl = nil
+	}
 	switch x := n.(type) {
 	case *ast.AssignStmt:
 		r.assign(b, x, st)
